@@ -44,6 +44,7 @@ class Ctx:
         st = self.stream(stream)
         st["evaluations"] += 1
         self.evaluations += 1
+        self.last = (stream, key)
         if key is not None and nontrivial:
             k = (stream, key)
             if k not in self.distinct:
@@ -168,6 +169,16 @@ def run_property(pid, tier, seed):
         discharged = 0
     # 5. correspondence and oracle search
     err = None
+    # a call into the library that never returns must not hang the check: the whole sweep runs under a deadline (far above
+    # what it takes on the unchanged tree), and running out of it is reported, not waited for
+    import os as _os
+    import signal as _signal
+    deadline = float(_os.environ.get("VERIF_DEADLINE_S") or (9000 if tier == "thorough" else 1500))
+
+    def _on_deadline(_sig, _frm):
+        raise common.TooLong()
+    _signal.signal(_signal.SIGALRM, _on_deadline)
+    _signal.setitimer(_signal.ITIMER_REAL, deadline, 1.0)
     try:
         if model_ok:
             mod.correspondence(ctx)
@@ -181,11 +192,20 @@ def run_property(pid, tier, seed):
             mod.replay_known(ctx)
         if (ctx.proof_broken or ctx.tie_broken or ctx.soft_broken) and not ctx.rep.violations and hasattr(mod, "search"):
             mod.search(ctx)
+    except common.TooLong:
+        last = getattr(ctx, "last", None)
+        ctx.rep.fail("deadline", {"what": "the sweep of this check was still running after %.0f s (on the unchanged tree it takes a small "
+                                          "fraction of that): a call into the library does not return, or has become very slow" % deadline,
+                                  "last_stream_and_input_counted": [str(x)[:300] for x in last] if last else None,
+                                  "note": "the input being evaluated is the one AFTER the last one counted in that stream"},
+                     found_input=False)
     except Tooling:
         raise
     except Exception:
         err = traceback.format_exc()
         raise Tooling("check crashed:\n" + err)
+    finally:
+        _signal.setitimer(_signal.ITIMER_REAL, 0)
     # 6. broken ties without a concrete input
     if not ctx.rep.violations:
         if ctx.proof_broken:
